@@ -68,6 +68,7 @@ type RunScenario struct {
 	OutState string   `json:"outState"` // absent | stale | dirAtPath | missingDir | truncated:<n> | broken | previous
 	Stale    string   `json:"stale,omitempty"`
 	Kind     string   `json:"kind"` // flags | history | repeat
+	Spelling string   `json:"spelling"`
 }
 
 type RunPrediction struct {
@@ -220,6 +221,20 @@ func init() {
 			if i%5 == 4 {
 				prof = "malformed"
 			}
+			if *prop == "C13" && i%3 != 2 {
+				// determinism is most at risk where maps are iterated: several imports, blank imports
+				if tc, ok := GenTargeted(*seed, i, "imports"); ok {
+					bases = append(bases, tc)
+					continue
+				}
+			}
+			if i%3 == 1 {
+				// a case without sub-packages (can be placed under any directory name)
+				if tc, ok := GenTargeted(*seed, i, "simple"); ok {
+					bases = append(bases, tc)
+					continue
+				}
+			}
 			bases = append(bases, GenCase(*seed, i, prof))
 		}
 		pristine := filepath.Join(root, "pristine")
@@ -262,6 +277,9 @@ func init() {
 					if !*thorough {
 						spellings = []string{"rel", []string{"abs", "pkgdir", "gofile", "dotrel"}[r.Intn(4)]}
 					}
+					if movable(c) {
+						spellings = append(spellings, "dotgo")
+					}
 					for _, sp := range spellings {
 						states := []string{"absent", "stale"}
 						hasOut := false
@@ -282,7 +300,7 @@ func init() {
 					}
 				}
 			case "C13":
-				for _, sp := range []string{"rel", "abs", "pkgdir", "gofile", "dotrel", "rel", "abs", "rel"} {
+				for _, sp := range []string{"rel", "abs", "pkgdir", "gofile", "dotrel", "rel", "abs", "rel", "rel", "pkgdir", "rel", "abs"} {
 					scenarios = append(scenarios, RunScenario{Base: c.Name, Kind: "repeat", OutState: "absent",
 						Argv: spellArgs(c, nil, sp).Argv, Gofile: spellArgs(c, nil, sp).Gofile, Cwd: spellArgs(c, nil, sp).Cwd})
 				}
@@ -312,6 +330,12 @@ func init() {
 					_ = os.MkdirAll(work, 0755)
 					_ = os.WriteFile(filepath.Join(work, "go.mod"), []byte("module exp\n\ngo 1.21\n"), 0644)
 					_ = copyTree(filepath.Join(pristine, sc.Base), filepath.Join(work, sc.Base))
+					if sc.Spelling == "dotgo" {
+						// the same package under a directory and a file name that contain ".go"
+						_ = os.MkdirAll(filepath.Join(work, "svc.golang"), 0755)
+						_ = os.Rename(filepath.Join(work, sc.Base), filepath.Join(work, "svc.golang", sc.Base))
+						_ = os.Rename(filepath.Join(work, "svc.golang", sc.Base, "setup.go"), filepath.Join(work, "svc.golang", sc.Base, "user.gorm.go"))
+					}
 					o, p := runScenario(*cli, drv, work, sc, refs[sc.Base])
 					mu.Lock()
 					results = append(results, result{o, p})
@@ -609,14 +633,30 @@ func spellArgs(c GCase, flags []string, spelling string) spelled {
 			argv = append(argv, "-out", "conv_out.go")
 		}
 		s.Gofile = filepath.Base(setup)
+	case "dotgo":
+		moved := filepath.Join("svc.golang", filepath.Dir(setup), "user.gorm.go")
+		if outArg != "" {
+			argv = append(argv, "-out", outName(filepath.Join("svc.golang", filepath.Dir(setup))))
+		}
+		argv = append(argv, moved)
 	}
 	s.Argv = argv
 	return s
 }
 
+// movable: the case has no sub-packages, so its directory can be renamed freely
+func movable(c GCase) bool {
+	for p := range c.Files {
+		if strings.Count(p, "/") > 1 {
+			return false
+		}
+	}
+	return true
+}
+
 func buildScenario(c GCase, flags []string, spelling, state string) RunScenario {
 	sp := spellArgs(c, flags, spelling)
-	sc := RunScenario{Base: c.Name, Argv: sp.Argv, Gofile: sp.Gofile, Cwd: sp.Cwd, OutState: state, Kind: "flags"}
+	sc := RunScenario{Base: c.Name, Argv: sp.Argv, Gofile: sp.Gofile, Cwd: sp.Cwd, OutState: state, Kind: "flags", Spelling: spelling}
 	// -out variants
 	for i, a := range sc.Argv {
 		val := ""
